@@ -519,7 +519,7 @@ def _encode_base(T, v, tag, ch, path=''):
         data = bytes(v)
         return _string_tlv(cls, num, data, 0, False, ch.segments(len(data), False, path), ch, path)
     if k in CHAR_KINDS:
-        data = char_content(k, v)
+        data = v.encode(T.get('enc_opt') or CHAR_CODEC[k])
         return _string_tlv(cls, num, data, 0, False, ch.segments(len(data), False, path), ch, path)
     if k in RECORD_KINDS:
         items = []
@@ -861,7 +861,7 @@ class _Reader(object):
             if k == 'OCTETSTRING':
                 return data, q
             try:
-                return data.decode(CHAR_CODEC[k]), q
+                return data.decode(T.get('enc_opt') or CHAR_CODEC[k]), q
             except (UnicodeDecodeError, ValueError):
                 raise RefError('malformed', 'octets are not %s text' % k)
         if k in RECORD_KINDS or k in OF_KINDS:
